@@ -15,7 +15,7 @@ From Coq Require Strings.String.
 Import Coq.Strings.String.StringSyntax.
 From Acg Require Import Base.Str Base.Outcome Model.JsonSchemaSem Model.JsonSchemaGen
   Model.JsonSchemaSpec Proofs.JsonSchemaFacts Proofs.JsonSchemaGenFacts
-  Proofs.JsonSchemaClassFacts Gen.GenJsonSchema.
+  Proofs.JsonSchemaClassFacts Proofs.JsonSchemaFlatFacts Gen.GenJsonSchema.
 Import ListNotations.
 Open Scope Z_scope.
 
@@ -134,11 +134,57 @@ Example C11_refs_resolve_example :
 Proof. vm_compute. reflexivity. Qed.
 Print Assumptions C11_refs_resolve_example.
 
+(** [schema_accepts_valid], class level, proved for *flat* classes (no parents, no
+    descendants, every property of primitive / list type, optional or not, with or without
+    [modelType]): for every instance that respects the class -- every present value well
+    typed and satisfying the constraints inferred for the class (byte arrays in bytes),
+    every required property present -- the document the SDK writes validates against the
+    generated concrete definition. *)
+Theorem C11_schema_accepts_valid_flat :
+  forall fixp search16 matches b64 int_tok defs cons_of,
+    (forall p s, search16 (fixp p) s = matches p s) ->
+    (forall b, zlen (b64 b) = b64len (zlen b)) ->
+  forall c n s fields,
+    flatb c = true -> concrete_definition primitive_map fixp cons_of c = Ok (n, s) ->
+    instance_okb matches false c fields = true ->
+    lookup model_type_kw fields = None ->
+  forall f, (cdepth c + 3 <= f)%nat ->
+    validates search16 defs f s (instance_doc b64 int_tok c fields) = Some true.
+Proof.
+  intros fixp search16 matches b64 int_tok defs cons_of Hfix Hb64.
+  exact (schema_accepts_valid_flat primitive_map fixp search16 matches b64 int_tok defs cons_of
+           pm_ok Hfix Hb64).
+Qed.
+Print Assumptions C11_schema_accepts_valid_flat.
+
+Definition blob_cls : cls :=
+  mkCls (s2l "Blob") false true [] [] false
+    [mkProp (s2l "data") false true (TAPrim 0 PBytes);
+     mkProp (s2l "tags") true true (TAList 1 (TAPrim 2 PStr))]
+    [(0%N, mkC (Some (Some 2, Some 3)) None); (1%N, mkC (Some (None, Some 2)) None);
+     (2%N, mkC (Some (Some 1, None)) (Some [s2l "p"]))].
+
+Example C11_schema_accepts_valid_flat_nonvacuous :
+  let fields := [(s2l "data", VBytes [1%N; 2%N; 3%N]);
+                 (s2l "tags", VList [VStr (s2l "ab"); VStr (s2l "c")])] in
+  flatb blob_cls = true
+  /\ instance_okb (fun _ _ => true) false blob_cls fields = true
+  /\ lookup model_type_kw fields = None
+  /\ match concrete_definition primitive_map (fun p => p) (fun _ => None) blob_cls with
+     | Ok (_, s) =>
+         validates (fun _ _ => true) [] 4 s
+           (instance_doc (fun b => repeat 65%N (Z.to_nat (b64len (zlen b)))) (fun _ => [])
+              blob_cls fields)
+     | _ => None
+     end = Some true.
+Proof. vm_compute. repeat split; reflexivity. Qed.
+Print Assumptions C11_schema_accepts_valid_flat_nonvacuous.
+
 (** [schema_accepts_valid] -- full statement (NOT proved): for every well-formed instance
     [i] of a class of the view that satisfies the recognised constraints,
     [validates (gen ts) (KRef (choice_or_class (cls i))) (to_json i) = Some true].
-    Proved part: the property level ([C11_kw_sound]: every property value of primitive /
-    list type validates against the definition generated for it). The composition over
+    Proved part: flat classes ([C11_schema_accepts_valid_flat]) and the property level
+    ([C11_kw_sound]). The composition over
     [allOf] inheritance chains and [oneOf] dispatch is covered by the in-Coq correspondence
     of [gen] with the real schema and by the oracle on the real artefacts only.
     On the example hierarchy a valid [Leaf] document is accepted through the choice of
